@@ -361,7 +361,7 @@ func c09LRU(c *Ctx, pkg string) {
 	var lookupOK *X
 	for _, b := range upd.SSA.Blocks {
 		if iff, ok := b.Instrs[len(b.Instrs)-1].(*ssa.If); ok && lookupOK == nil {
-			if _, m := Match(Extract("1", Op("lookup", "", Field("cache", Any()), Op("param", ""))), c.E(iff.Cond)); m {
+			if _, m := Match(Extract("1", Op("lookup", "", FieldT("map[string]*container/list.Element", Any()), Op("param", ""))), c.E(iff.Cond)); m {
 				lookupOK = c.E(iff.Cond)
 			}
 		}
@@ -395,7 +395,7 @@ func c09LRU(c *Ctx, pkg string) {
 	c.Check(okIns, "C09.A8-lru-discipline", upd.Name+" › miss inserts once", upd.SSA.Pos(), "on a miss the key is pushed to the front and the element stored under that key", "insertion not (on the miss edge ∧ element stored under its key)")
 	// eviction: only when full, takes Back()
 	for _, cs := range c.Calls(upd.SSA, Call("container/list.List).Remove")) {
-		_, full := c.Guarded(cs.In, Bin("==", Call("container/list.List).Len"), Field("max", Any())), true)
+		_, full := c.Guarded(cs.In, Bin("==", Call("container/list.List).Len"), FieldT("int", Any())), true)
 		_, back := Match(Call("container/list.List).Back"), cs.X.Args[1])
 		c.Check(full && back, "C09.A8-lru-discipline", upd.Name+" › evicts the oldest only when full", cs.In.Pos(), "eviction removes Back() on the Len() == max edge", "eviction is not (the back element ∧ only when the list is full)")
 	}
